@@ -196,8 +196,11 @@ async def explore(tier, seed):
         if rng.random() < 0.3:
             # one of the names is the library's DEFAULT schema name (what is registered there belongs to it alone)
             from tartiflette.schema.registry import SchemaRegistry
-            SchemaRegistry._schemas.pop("default", None)       # (left-overs of an earlier configuration of this run)
-            bundles[rng.randrange(k)]["name"] = "default"
+            try:
+                SchemaRegistry._schemas.pop("default", None)       # (left-overs of an earlier configuration of this run)
+                bundles[rng.randrange(k)]["name"] = "default"
+            except Exception:
+                pass                                               # (registry not reachable this way: keep the generated names)
         solo = [alone(bd) for bd in bundles]
         if bundles[0].get("counting_scalar"):
             from tartiflette import Scalar as _Scalar
